@@ -1484,6 +1484,10 @@ func (r *Runtime) RunProgram(p *Program) (result Value, err error) {
 			vm.popCtx()
 		} else {
 			vm.callStack = vm.callStack[:len(vm.callStack)-1]
+			// also when the program was aborted (interrupt, stack overflow, foreign panic): a stale
+			// program would be taken for a running one by the next call made from Go
+			vm.prg = nil
+			vm.sb = -1
 		}
 		if x := recover(); x != nil {
 			if ex := asUncatchableException(x); ex != nil {
